@@ -1,3 +1,258 @@
-import HapVerif.Model.C19
+import HapVerif.Lemmas.C19
+import HapVerif.Generated.Facts
+/-!
+# C19 — disabled snippet keywords never reach the configuration through annotations
+
+Model (`HapVerif.C19`, file `Model/C19.lean`): `lineToSlice` (`utils.LineToSlice`),
+`firstToken` over the `asciiSpace` table, the keyword loop of `buildBackendCustomConfig`
+(`scan`, `customConfig`) and `mapperGet` (first registered annotation value, else the
+global ConfigMap value with a nil source).  Strings are arbitrary byte lists, keyword lists
+and annotation lists are arbitrary lists: every theorem below quantifies over all of them.
+
+The model is tied to the Go code by the correspondence run (`harness/cmd/hv/c19.go`), the
+constants (table, loop conditions, split/trim separators) by `facts_c19`.
+-/
 namespace HapVerif.C19
+
+/-! ## `firstToken` -/
+
+/-- **firstToken_spec**: the two table loops compute "skip C-`isspace` blanks, then take
+the maximal run of non-blanks" — for every byte string (blank-only, empty, bytes ≥ 128, …). -/
+theorem firstToken_spec (s : Str) :
+    firstToken s = (s.dropWhile isSpace).takeWhile (fun b => !isSpace b) := by
+  unfold firstToken
+  rw [skipBlanks_eq, takeToken_eq]
+
+/-- leading blanks or tabs (any mix of the six `isspace` bytes) do not change the token -/
+theorem firstToken_leading_blanks (ws l : Str) (h : ∀ b ∈ ws, isSpace b = true) :
+    firstToken (ws ++ l) = firstToken l := by
+  rw [firstToken_spec, firstToken_spec]
+  congr 1
+  induction ws with
+  | nil => rfl
+  | cons b ws ih =>
+    have hb := h b List.mem_cons_self
+    simp only [List.cons_append, List.dropWhile_cons, hb, if_true]
+    exact ih (fun c hc => h c (List.mem_cons_of_mem _ hc))
+
+theorem mem_takeWhile_true (p : Nat → Bool) (l : Str) (b : Nat) (h : b ∈ l.takeWhile p) : p b = true := by
+  induction l with
+  | nil => simp at h
+  | cons c l ih =>
+    rw [List.takeWhile_cons] at h
+    split at h
+    · rename_i hc
+      rcases List.mem_cons.1 h with e | h
+      · exact e ▸ hc
+      · exact ih h
+    · simp at h
+
+/-- the token never contains a blank: `k x`, `k\tx`, `k\r` all have token `k` -/
+theorem firstToken_no_blank (s : Str) : ∀ b ∈ firstToken s, isSpace b = false := by
+  rw [firstToken_spec]
+  intro b hb
+  have := mem_takeWhile_true _ _ _ hb
+  simpa using this
+
+example : firstToken [32, 9, 107, 32, 120] = [107] := by decide        -- " \tk x" -> "k"
+example : firstToken [107, 120] = [107, 120] := by decide              -- "kx" is not "k"
+example : firstToken [13, 11, 12, 107, 9] = [107] := by decide         -- "\r\v\fk\t" -> "k"
+example : firstToken [194, 160, 107] = [194, 160, 107] := by decide    -- NBSP is not a blank
+
+/-! ## `LineToSlice`: multi-line values -/
+
+/-- no line of the slice contains a line feed, and joining them gives the right-trimmed text back -/
+theorem lineToSlice_lines (s : Str) :
+    (∀ l ∈ lineToSlice s, nl ∉ l) ∧
+    (s ≠ [] → List.intercalate [nl] (lineToSlice s) = trimRightNL s) := by
+  unfold lineToSlice
+  constructor
+  · split
+    · simp
+    · exact splitNL_no_nl _
+  · intro h
+    simp only [h, if_false]
+    exact splitNL_join _
+
+/-- **physical_line_checked**: every non-empty physical line of the text — whatever precedes
+it (nothing, or anything ending in a line feed) and whatever follows it (nothing, or a line
+feed and anything) — is an element of the slice the keyword loop iterates over. -/
+theorem physical_line_checked (a l b : Str) (hl : nl ∉ l) (hne : l ≠ [])
+    (ha : a = [] ∨ ∃ a', a = a' ++ [nl]) (hb : b = [] ∨ ∃ b', b = nl :: b') :
+    l ∈ lineToSlice (a ++ l ++ b) := by
+  have hnotall : (l ++ b).all (· == nl) = false := by
+    cases l with
+    | nil => exact absurd rfl hne
+    | cons c l =>
+      have hc : c ≠ nl := fun e => hl (e ▸ List.mem_cons_self)
+      simp [hc]
+  have hs : a ++ l ++ b ≠ [] := by
+    cases l with
+    | nil => exact absurd rfl hne
+    | cons c l => simp
+  unfold lineToSlice
+  simp only [hs, if_false]
+  rw [List.append_assoc, trimRightNL_append_of_not_all a (l ++ b) hnotall, trimRightNL_append_clean l b hl]
+  -- the tail after `l` is empty or still starts with a line feed
+  have htail : trimRightNL b = [] ∨ ∃ t, trimRightNL b = nl :: t := by
+    rcases hb with rfl | ⟨b', rfl⟩
+    · exact Or.inl rfl
+    · rcases trimRightNL_nl_cons b' with h | h
+      · exact Or.inl h
+      · exact Or.inr ⟨_, h⟩
+  have hmid : l ∈ splitNL (l ++ trimRightNL b) := by
+    rcases htail with h | ⟨t, h⟩
+    · rw [h, List.append_nil, splitNL_of_not_mem hl]; exact List.mem_singleton.2 rfl
+    · rw [h, splitNL_append_nl, splitNL_of_not_mem hl]; simp
+  rcases ha with rfl | ⟨a', rfl⟩
+  · simpa using hmid
+  · rw [List.append_assoc, List.singleton_append, splitNL_append_nl]
+    exact List.mem_append_right _ hmid
+
+example : lineToSlice [120, 10, 32, 107, 10, 10] = [[120], [32, 107]] := by decide   -- "x\n k\n\n"
+example : lineToSlice [10] = [[]] := by decide                                        -- "\n" -> one empty line
+example : lineToSlice [] = [] := by decide
+
+/-! ## the keyword loop -/
+
+/-- some disabled keyword hits the snippet: `*`, or a non-empty keyword equal to the first
+token of some line -/
+def Hit (kws : List Str) (lines : List Str) : Prop :=
+  star ∈ kws ∨ ∃ l ∈ lines, ∃ k ∈ kws, k ≠ [] ∧ firstToken l = k
+
+theorem scan_some_lines {src : Option String} {lines kws : List Str} {o : Outcome}
+    (h : scan src lines kws = some o) : o.lines = [] := by
+  induction kws with
+  | nil => simp [scan] at h
+  | cons k ks ih =>
+    unfold scan at h
+    split at h
+    · exact ih h
+    · split at h
+      · cases h; rfl
+      · split at h
+        · cases h; rfl
+        · exact ih h
+
+theorem scan_none_iff (src : Option String) (lines kws : List Str) :
+    scan src lines kws = none ↔ ¬ Hit kws lines := by
+  induction kws with
+  | nil => simp [scan, Hit]
+  | cons k ks ih =>
+    unfold scan
+    by_cases hk : k = []
+    · simp only [hk, if_true, ih, Hit]
+      have hs : star ≠ [] := by decide
+      constructor
+      · rintro h (hm | ⟨l, hl, k', hk', hne, ht⟩)
+        · rcases List.mem_cons.1 hm with e | hm
+          · exact hs e
+          · exact h (Or.inl hm)
+        · rcases List.mem_cons.1 hk' with e | hk'
+          · exact hne e
+          · exact h (Or.inr ⟨l, hl, k', hk', hne, ht⟩)
+      · rintro h (hm | ⟨l, hl, k', hk', hne, ht⟩)
+        · exact h (Or.inl (List.mem_cons_of_mem _ hm))
+        · exact h (Or.inr ⟨l, hl, k', List.mem_cons_of_mem _ hk', hne, ht⟩)
+    · simp only [hk, if_false]
+      by_cases hst : k = star
+      · simp only [hst, if_true]
+        constructor
+        · intro h; cases h
+        · intro h; exact absurd (Or.inl List.mem_cons_self) h
+      · simp only [hst, if_false]
+        by_cases hany : lines.any (fun l => firstToken l == k) = true
+        · simp only [hany, if_true]
+          constructor
+          · intro h; cases h
+          · intro h
+            obtain ⟨l, hl, he⟩ := List.any_eq_true.1 hany
+            exact absurd (Or.inr ⟨l, hl, k, List.mem_cons_self, hk, by simpa using he⟩) h
+        · simp only [hany, Bool.false_eq_true, if_false]
+          rw [ih]
+          simp only [Hit]
+          constructor
+          · rintro h (hm | ⟨l, hl, k', hk', hne, ht⟩)
+            · rcases List.mem_cons.1 hm with e | hm
+              · exact hst e.symm
+              · exact h (Or.inl hm)
+            · rcases List.mem_cons.1 hk' with e | hk'
+              · subst e
+                exact hany (List.any_eq_true.2 ⟨l, hl, by simpa using ht⟩)
+              · exact h (Or.inr ⟨l, hl, k', hk', hne, ht⟩)
+          · rintro h (hm | ⟨l, hl, k', hk', hne, ht⟩)
+            · exact h (Or.inl (List.mem_cons_of_mem _ hm))
+            · exact h (Or.inr ⟨l, hl, k', List.mem_cons_of_mem _ hk', hne, ht⟩)
+
+/-- **blocked**: if some line of the effective snippet has a non-empty disabled keyword as
+its first token, nothing of the snippet is emitted (dropped as a whole). All keyword lists,
+all texts, any source. -/
+theorem blocked (kws : List Str) (cfg : Cfg)
+    (h : ∃ l ∈ lineToSlice cfg.value, ∃ k ∈ kws, k ≠ [] ∧ firstToken l = k) :
+    (customConfig kws cfg).lines = [] := by
+  unfold customConfig
+  simp only
+  split
+  · rfl
+  · cases hs : scan cfg.source (lineToSlice cfg.value) kws with
+    | some o => exact scan_some_lines hs
+    | none => exact absurd (Or.inr h) ((scan_none_iff _ _ _).1 hs)
+
+/-- **star**: with `*` in the list no snippet is emitted at all -/
+theorem star_blocks (kws : List Str) (cfg : Cfg) (h : star ∈ kws) : (customConfig kws cfg).lines = [] := by
+  unfold customConfig
+  simp only
+  split
+  · rfl
+  · cases hs : scan cfg.source (lineToSlice cfg.value) kws with
+    | some o => exact scan_some_lines hs
+    | none => exact absurd (Or.inl h) ((scan_none_iff _ _ _).1 hs)
+
+/-- **untouched**: otherwise the snippet is emitted exactly as `LineToSlice` produced it -/
+theorem untouched (kws : List Str) (cfg : Cfg) (h : ¬ Hit kws (lineToSlice cfg.value)) :
+    (customConfig kws cfg).lines = lineToSlice cfg.value := by
+  unfold customConfig
+  simp only
+  split
+  · rename_i he; simp [Outcome.lines, he]
+  · rw [(scan_none_iff _ _ _).2 h]; rfl
+
+theorem takeWhile_word (k rest : Str) (hkb : ∀ c ∈ k, isSpace c = false)
+    (hrest : rest = [] ∨ ∃ c r, rest = c :: r ∧ isSpace c = true) :
+    (k ++ rest).takeWhile (fun b => !isSpace b) = k := by
+  induction k with
+  | nil =>
+    rcases hrest with rfl | ⟨c, r, rfl, hc⟩
+    · rfl
+    · simp [hc]
+  | cons c k ih =>
+    have hc := hkb c List.mem_cons_self
+    simp only [List.cons_append, List.takeWhile_cons, hc, Bool.not_false, if_true]
+    congr 1
+    exact ih (fun x hx => hkb x (List.mem_cons_of_mem _ hx))
+
+/-- **multiline_no_bypass**: blanks before the keyword and surrounding lines do not hide it:
+if the text contains a physical line `ws ++ k ++ rest` (blanks, the keyword, then end of line
+or a blank and anything) the whole snippet is dropped. -/
+theorem multiline_no_bypass (kws : List Str) (src : Option String) (a b ws k rest : Str)
+    (hk : k ∈ kws) (hkne : k ≠ []) (hkb : ∀ c ∈ k, isSpace c = false)
+    (hws : ∀ c ∈ ws, isSpace c = true)
+    (hrest : rest = [] ∨ ∃ c r, rest = c :: r ∧ isSpace c = true)
+    (hline : nl ∉ ws ++ k ++ rest)
+    (ha : a = [] ∨ ∃ a', a = a' ++ [nl]) (hb : b = [] ∨ ∃ b', b = nl :: b') :
+    (customConfig kws ⟨src, a ++ (ws ++ k ++ rest) ++ b⟩).lines = [] := by
+  apply blocked
+  refine ⟨ws ++ k ++ rest, ?_, k, hk, hkne, ?_⟩
+  · apply physical_line_checked _ _ _ hline _ ha hb
+    cases k with
+    | nil => exact absurd rfl hkne
+    | cons c k => simp
+  · rw [List.append_assoc, firstToken_leading_blanks ws _ hws, firstToken_spec]
+    have hdrop : (k ++ rest).dropWhile isSpace = k ++ rest := by
+      cases k with
+      | nil => exact absurd rfl hkne
+      | cons c k => simp [hkb c List.mem_cons_self]
+    rw [hdrop]
+    exact takeWhile_word k rest hkb hrest
+
 end HapVerif.C19
